@@ -176,6 +176,7 @@ def classify(e, nlines):
     elif isinstance(e, ScenicSyntaxError) or isinstance(e, SyntaxError):
         ln = getattr(e, "lineno", None)
         info["lineno"] = ln
+        info["offset"] = getattr(e, "offset", None)
         info["scenic"] = isinstance(e, ScenicSyntaxError)
         if ln is None:
             info["outcome"] = "syntax-error-without-line"
@@ -584,7 +585,7 @@ def _one_sentence(job):
         keep = {} if "full" in job else None
         r = run_route("ast", job["text"], job["id"], keep=keep)
         res = dict(id=job["id"], outcome=r["outcome"], type=r.get("type"), msg=r.get("msg"), func=r.get("func"), file=r.get("file"),
-                   lineno=r.get("lineno"), nlines=r.get("nlines"), route="ast", cpu_s=r.get("cpu_s"))
+                   lineno=r.get("lineno"), offset=r.get("offset"), nlines=r.get("nlines"), route="ast", cpu_s=r.get("cpu_s"))
         if "full" in job:
             if job["full"] == job["text"]:
                 full = keep if "dump" in keep else None
